@@ -149,6 +149,27 @@ def build_records(quick: bool, seed: int, repo: str) -> list[dict[str, Any]]:
                 leftover = len([k for k in body3.get('metadata', {}).get('annotations', {}) if k in own_keys])
                 recs.append({'kind': 'purge', 'storage': sname + ('+drs' if drs else ''), 'id': cps(i), 'fetched_after': enc(pst.fetch(key=i, body=B3)),
                              'others_before': enc(others(body2)), 'others_after': enc(others(body3)), 'leftover': leftover})
+    # the last-handled state: whatever essence is stored is read back identically from the patched object (empty and falsy ones too),
+    # also when an older state is on the object already; user data and other operators' annotations are untouched
+    essences = [{}, {'spec': {}}, {'spec': {'x': 1}}, {'metadata': {'labels': {'a': 'b'}}, 'spec': {'x': [1, {'y': 'ü☃'}], 'z': ''}},
+                {'spec': {'x': 0, 'f': False, 'e': '', 'l': [], 'd': {}}}, {'metadata': {}}, {'data': {'k': 'v' * 300}}]
+    for sname, (pst, dst, prefix) in storages().items():
+        for ess, prev, drs in itertools.product(essences, [None, {'spec': {'old': True}}, {}], (False, True)):
+            base = {'metadata': {'name': 'o', 'annotations': {'user': 'u', 'other.example.com/kopf-managed': 'yes', 'other.example.com/last-handled-configuration': '{"spec":{"theirs":1}}\n'}},
+                    'status': {'user': 1}}
+            if drs:
+                base['kind'] = 'ReplicaSet'; base['metadata']['ownerReferences'] = [{'kind': 'Deployment', 'name': 'd'}]
+            body = base
+            if prev is not None:
+                p0 = patches.Patch(); dst.store(body=bodies.Body(copy.deepcopy(base)), patch=p0, essence=copy.deepcopy(prev))
+                body = merge_patch(base, json.loads(json.dumps(dict(p0))))
+            p = patches.Patch(); dst.store(body=bodies.Body(copy.deepcopy(body)), patch=p, essence=copy.deepcopy(ess))
+            after = merge_patch(body, json.loads(json.dumps(dict(p))))
+            foreign = lambda b: {k: v for k, v in b.get('metadata', {}).get('annotations', {}).items() if not (prefix and k.startswith(prefix + '/'))}
+            recs.append({'kind': 'lasthandled', 'storage': sname + ('+drs' if drs else ''), 'essence': enc(ess), 'had': prev is not None,
+                         'fetched': enc(dst.fetch(body=bodies.Body(copy.deepcopy(after)))),
+                         'others_before': enc({'ann': foreign(body), 'status_user': body.get('status', {}).get('user')}),
+                         'others_after': enc({'ann': foreign(after), 'status_user': after.get('status', {}).get('user')})})
     # several operations on one patch for one id; the object may already carry one of the records
     for sname, (pst, dst, prefix) in storages().items():
         for i in ['fn', 'a' * 64, 'fn/sub']:
